@@ -240,7 +240,16 @@ func init() {
 					}(i)
 				}
 				close(start)
-				wg.Wait()
+				allDone := make(chan struct{})
+				go func() { wg.Wait(); close(allDone) }()
+				select {
+				case <-allDone:
+				case <-time.After(90 * time.Second):
+					// the scripted peers answer at once and the client's timeout is 10 s: goroutines that are still in
+					// their calls now are blocked on one another
+					c.Violate("c13-deadlock", fmt.Sprintf("%d goroutines started, not all of their Send / DialAndSend calls have returned after 90 s", n), in)
+					panic(suiteStop{"concurrent calls on one Client did not return: the suite stops here (its findings so far are reported)"})
+				}
 				if shared || mode == 2 {
 					_ = client.Close()
 				}
